@@ -81,6 +81,9 @@ pub fn eval_case(ops: &[Op], drv: Option<&mut Drv>, pool: &Pool, rng: &mut Rng, 
     enum AnyDisp {
         D(Dispatcher<'static, 'static>),
         S(SendDispatcher<'static>),
+        /// through `impl RunNow for Dispatcher` (dispatcher.rs l.131): what a dispatcher nested
+        /// as a thread-local system of another one is driven by
+        B(Box<dyn for<'x> RunNow<'x> + 'static>),
     }
     let has_tl = ops.iter().any(|o| matches!(o, Op::Tl { .. }));
     let mut disp = if !has_tl && rng.chance(30) {
@@ -91,6 +94,8 @@ pub fn eval_case(ops: &[Op], drv: Option<&mut Drv>, pool: &Pool, rng: &mut Rng, 
                 AnyDisp::D(d)
             }
         }
+    } else if rng.chance(25) {
+        AnyDisp::B(Box::new(disp))
     } else {
         AnyDisp::D(disp)
     };
@@ -115,6 +120,7 @@ pub fn eval_case(ops: &[Op], drv: Option<&mut Drv>, pool: &Pool, rng: &mut Rng, 
         let r = catch_unwind(AssertUnwindSafe(|| match &mut disp {
             AnyDisp::D(d) => d.setup(&mut world),
             AnyDisp::S(d) => d.setup(&mut world),
+            AnyDisp::B(d) => d.setup(&mut world),
         }));
         if let Err(p) = r {
             out.impl_v.push(("C13".into(), format!("setup panicked: {}", panic_message(&p))));
@@ -198,6 +204,7 @@ pub fn eval_case(ops: &[Op], drv: Option<&mut Drv>, pool: &Pool, rng: &mut Rng, 
     let r = catch_unwind(AssertUnwindSafe(move || match disp {
         AnyDisp::D(d) => d.dispose(&mut world),
         AnyDisp::S(d) => d.dispose(&mut world),
+        AnyDisp::B(d) => d.dispose(&mut world),
     }));
     if let Err(p) = r {
         out.impl_v.push(("C13".into(), format!("dispose panicked: {}", panic_message(&p))));
